@@ -85,7 +85,7 @@ def numberPres : List Pre → Nat → List Pre
     { p with op := r.1 } :: numberPres ps r.2
 
 /-- `ReProgram::new(pattern, operation, max_parens, flags)` (+ OPT_HASBACKREFS set by `compile`) -/
-def mkProgram (pattern : List Nat) (op0 : Op) (maxParens : Nat) (fl : Flags) (hasBackrefs : Bool) : Prog :=
+def mkProgram (pattern : List Nat) (op0 : Op) (maxParens : Nat) (fl : CFlags) (hasBackrefs : Bool) : Prog :=
   let r := numberReps op0 0
   let op := r.1
   let base : Prog :=
@@ -102,7 +102,7 @@ def mkProgram (pattern : List Nat) (op0 : Op) (maxParens : Nat) (fl : Flags) (ha
   | _ => base
 
 /-- the program the verification hook builds with optimisations off -/
-def mkBareProgram (pattern : List Nat) (op0 : Op) (maxParens : Nat) (fl : Flags) (hasBackrefs : Bool) : Prog :=
+def mkBareProgram (pattern : List Nat) (op0 : Op) (maxParens : Nat) (fl : CFlags) (hasBackrefs : Bool) : Prog :=
   { op := (numberReps op0 0).1, caseBlind := fl.caseBlind, multiLine := fl.multiLine, literal := fl.literal,
     hasBackrefs := hasBackrefs, maxParens := maxParens, minLen := 0, pattern := pattern }
 
